@@ -1,11 +1,13 @@
 package vrt
 
 import (
+	"fmt"
+	"os"
 	"runtime"
 	"time"
 )
 
-// Explorer: iterative preemption-bounded depth-first exploration of all schedules of Body.
+// Explorer: iterative deviation-bounded (delay-bounded) depth-first exploration of all schedules of Body.
 // run(prefix) replays the prefix and then takes choice 0 (keep running the current thread, else lowest id)
 // at every later choice point; every alternative at every later point whose cost fits the bound is explored.
 type Explorer struct {
@@ -22,12 +24,17 @@ type Explorer struct {
 	CapHit                                 bool
 	seen                                   map[uint64]int
 	sinceGC                                int
+	lastTrace                              []Step
 }
 
+// preemptionsBefore counts the deviations among the first i choices. A deviation is any choice other than the
+// default one (keep running the current thread if it is still enabled, else the enabled thread with the lowest
+// id): delay bounding. Preemptions are deviations; so is picking another thread than the default one when the
+// running thread blocks, which keeps bound 0 at a single execution whatever the number of threads.
 func preemptionsBefore(tr []Step, i int) int {
 	c := 0
 	for _, st := range tr[:i] {
-		if st.Chosen > 0 && st.CurEnabled {
+		if st.Chosen > 0 {
 			c++
 		}
 	}
@@ -96,10 +103,7 @@ func (e *Explorer) children(x *Sched, from int) [][]int {
 	var out [][]int
 	tr := x.Trace
 	for i := from; i < len(tr); i++ {
-		cost := preemptionsBefore(tr, i)
-		if tr[i].CurEnabled {
-			cost++
-		}
+		cost := preemptionsBefore(tr, i) + 1
 		if e.Bound >= 0 && cost > e.Bound {
 			continue
 		}
@@ -126,8 +130,17 @@ func (e *Explorer) Explore(prefix []int) {
 		stack = stack[:len(stack)-1]
 		x := e.runOne(p)
 		if x.Diverged != "" {
+			if DebugNames && e.lastTrace != nil {
+				k := len(p) - 1
+				for i := k - 3; i <= k && i < len(e.lastTrace); i++ {
+					if i >= 0 {
+						fmt.Fprintf(os.Stderr, "parent step %d: %v chosen=%d clock=%v\n", i, e.lastTrace[i].Names, e.lastTrace[i].Chosen, e.lastTrace[i].Clock)
+					}
+				}
+			}
 			panic("vrt: " + x.Diverged)
 		}
+		e.lastTrace = x.Trace
 		if !x.Pruned && e.OnExec != nil {
 			e.OnExec(x, Choices(x.Trace))
 		}
